@@ -257,7 +257,7 @@ func genHistory(r *core.Rand, c HistCfg) *Episode {
 	for len(ep.Ops) < c.NOps {
 		switch r.Pick(w) {
 		case 0:
-			ep.Ops = append(ep.Ops, signOp(r, !c.Stub && c.Height <= 6))
+			ep.Ops = append(ep.Ops, signOp(r, c.Height <= 8))
 			if idx < leaves {
 				idx++
 			}
@@ -430,7 +430,10 @@ func NewBatch(prop, tier string, seed uint64) *Batch {
 		for _, hc := range []struct {
 			h    uint8
 			stub bool
-		}{{16, true}, {14, true}, {12, true}, {10, true}, {8, true}, {6, true}, {4, true}, {6, false}, {4, false}} {
+		}{{18, true}, {16, true}, {14, true}, {12, true}, {10, true}, {8, true}, {6, true}, {4, true}, {6, false}, {4, false}} {
+			if hc.h == 18 && !thorough {
+				continue
+			}
 			leaves := uint32(1) << hc.h
 			for hf := uint8(0); hf < 3; hf++ {
 				inv := func(idx uint32) []Op {
@@ -446,7 +449,9 @@ func NewBatch(prop, tier string, seed uint64) *Batch {
 				}
 				ep := &Episode{Kind: "xmss", Profile: "c02-exhaustion", Height: hc.h, Hash: hf, Stub: hc.stub, SeedHex: seedHex(fr), Twin: "mirror", Drain: "none"}
 				ep.Ops = append(ep.Ops, Op{K: "jump", J: leaves - 3}, signOp(fr, false), signOp(fr, false))
+				ep.Ops = append(ep.Ops, Op{K: "jump", J: leaves - 1}) // SetIndex(current) at the last leaf
 				ep.Ops = append(ep.Ops, inv(leaves-1)...)
+				ep.Ops = append(ep.Ops, Op{K: "jump", J: leaves - 1})
 				ep.Ops = append(ep.Ops, signOp(fr, false), signOp(fr, false)) // last leaf, then refused
 				ep.Ops = append(ep.Ops, inv(leaves)...)
 				ep.Ops = append(ep.Ops, Op{K: "jump", J: leaves - 1}, signOp(fr, false), signOp(fr, false))
@@ -459,7 +464,13 @@ func NewBatch(prop, tier string, seed uint64) *Batch {
 					mid = 3
 					g.Ops = append(g.Ops, Op{K: "jump", J: mid})
 				}
-				for _, o := range inv(mid) {
+				for gi, o := range inv(mid) {
+					if gi%2 == 1 {
+						g.Ops = append(g.Ops, Op{K: "jump", J: mid}) // distance 0 right before the refused call
+					}
+					if gi%3 == 2 {
+						g.Ops = append(g.Ops, o) // the same refused call twice in a row
+					}
 					g.Ops = append(g.Ops, o, signOp(fr, false))
 					mid++
 					if mid >= leaves-1 {
@@ -588,6 +599,10 @@ func NewBatch(prop, tier string, seed uint64) *Batch {
 					c.MaxDist = 2500
 					if c.Twin == "sign" { // a signing twin pays a WOTS signature per skipped index
 						c.Twin = "unit"
+					}
+					if r.Chance(0.3) { // long jumps (more than 2^12 leaves) with the cheap twins
+						c.MaxDist = 0
+						c.NOps = r.Range(4, 12)
 					}
 				}
 				c.Drain = "full"
